@@ -339,7 +339,7 @@ func compileLambda(e b6.Expression, c *compilation) (*lambdaCall, error) {
 		Done:       func(entrypoint int) { l.pc = entrypoint },
 	}
 	for _, s := range lambda.Args {
-		if c.NumArgs > MaxArgs {
+		if c.NumArgs >= MaxArgs {
 			return nil, fmt.Errorf("Can't use more than %d args", MaxArgs)
 		}
 		f.Bind(s, c.NumArgs)
